@@ -99,7 +99,7 @@ def python_side(ctx, m, proto, vals, data, tag, ex):
     """the same two oracles on the generated Python: the document it writes is the documented mapping, and it reads the documented mapping"""
     c = m.codec
     py = rt.PyEndpoint(m)
-    exp = dict(ex, trigger=rt.py_triggers(m, proto))
+    exp = dict(ex, trigger=rt.py_triggers(m, proto) + ex.get("pinned", ""))
     r = py.copy(proto.name, "bin", "ndjson", data)
     ctx.ev(); ctx.count("bin->ndjson.py")
     ok = judge_doc(ctx, m, proto, vals, r, "py", tag + " bin->ndjson (python)", exp, data)
@@ -109,7 +109,7 @@ def python_side(ctx, m, proto, vals, data, tag, ex):
         return
     r2 = py.copy(proto.name, "ndjson", "bin", ref_text)
     ctx.ev(); ctx.count("ndjson->bin.py")
-    rt.judge(ctx, m, proto, vals, ref_text, r2, "py", "bin", tag + " refndjson->bin (python)", dict(ex, trigger=""))
+    rt.judge(ctx, m, proto, vals, ref_text, r2, "py", "bin", tag + " refndjson->bin (python)", dict(ex, trigger=ex.get("pinned", "")))
     if ok and r.rc == 0:
         r3 = py.copy(proto.name, "ndjson", "ndjson", r.out)
         ctx.ev(); ctx.count("ndjson->ndjson.py")
@@ -277,7 +277,11 @@ def matrix_package(quick: bool):
     UOpts = U((("note", P("string")), ("rec", N("MxOneOpt"))), False, True)
     protos.append(Proto("MxTagLike", [("trigger", UTrig), ("title", UTitle), ("titles", V(UTitle)), ("opts", S(UOpts)), ("byKey", M(P("string"), UTitle)), ("held", N("MxTagHolder"))]))
     TagHolder = Rec("MxTagHolder", [("t", UTrig), ("a", UTitle), ("o", U((("note", P("string")), ("rec", N("MxOneOpt"))), True, True))])
-    return Pkg("Matrix", [Thr, OneOpt, TagHolder, Al("MxAttrs", M(P("string"), P("string"))), Rc, Rc2, E1, F1, Gen, AllOpt, Lookup, GMap, GMap2, Al("MxLabel", P("string")), Al("MxCount", P("uint16")), Al("MxRemark", Opt(P("string"))),
+    # a union one of whose cases is a type parameter: whether its cases can be told apart by their JSON kind is only known at the instantiation
+    GenU = Rec("MxGenU", [("id", P("int32")), ("u", U(((None, TP("T")), (None, P("int32")))))], ("T",))
+    protos.append(Proto("MxGenericUnion", [("withFloat", N("MxGenU", (P("float64"),))), ("withString", N("MxGenU", (P("string"),))), ("withRec", N("MxGenU", (N("MxRec2"),))),
+                                           ("items", S(N("MxGenU", (P("float64"),)))), ("vec", V(N("MxGenU", (P("string"),))))]))
+    return Pkg("Matrix", [GenU, Thr, OneOpt, TagHolder, Al("MxAttrs", M(P("string"), P("string"))), Rc, Rc2, E1, F1, Gen, AllOpt, Lookup, GMap, GMap2, Al("MxLabel", P("string")), Al("MxCount", P("uint16")), Al("MxRemark", Opt(P("string"))),
                           Al("MxNullU", U(((None, P("int32")), (None, P("string"))), True)), Al("MxRemark2", N("MxRemark")), Aliased, ArrRec, FM, FO, FZ, FlagRec] + protos)
 
 
@@ -327,6 +331,10 @@ def run_matrix(ctx, quick):
                 vals[2] = [[i, (None if i % 2 else (0, "t%d" % i))] for i in range(6)]
             data = c.encode_stream(proto, sch, vals)
             mx = {"matrix": True, "trigger": rt.ndjson_tag_collision_trigger(m, proto)}
+            if proto.name == "MxGenericUnion":
+                # the pinned witness of the listed finding c02-union-with-type-parameter-case (the only protocol that holds such a union)
+                mx["trigger"] = (mx["trigger"] or "") + "[union-with-type-parameter-case]"
+                mx["pinned"] = "[union-with-type-parameter-case]"
             ctx.case(("matrix", proto.name, k))
             tag = "union-matrix %s set %d" % (proto.name, k)
             r = ep.copy(proto.name, "bin", "ndjson", data)
@@ -340,7 +348,7 @@ def run_matrix(ctx, quick):
                 r3 = ep.copy(proto.name, "ndjson", "bin", r.out)
                 ctx.ev(); ctx.count("matrix.gen-ndjson->bin")
                 rt.judge(ctx, m, proto, vals, r.out, r3, ep.name, "bin", tag + " gen-ndjson->bin (round trip through generated code)", mx)
-            python_side(ctx, m, proto, vals, data, tag, {"matrix": True})
+            python_side(ctx, m, proto, vals, data, tag, {"matrix": True, "pinned": mx.get("pinned", "")})
 
     pmap(one, pkg.protocols())
     ctx.sample({"matrix_protocols": len(pkg.protocols()), "unions": sum(len(p.steps) for p in pkg.protocols())})
